@@ -579,8 +579,8 @@ def objs_index(objs, c):
 def exact_checks(ctx, e, adm, sigma, mag, cls, vec, f=None):
     """Python-side sharpening of the TLC verdict: exactly zero outside, 1e-12 inside (skipped for the
     empty-window reading of inverted bounds, which TLC has accepted)."""
-    if sigma is None or e['raised'] or sigma.shape[0] != len(adm):
-        return
+    if sigma is None or e['raised'] or getattr(sigma, 'ndim', 0) != 2 or sigma.shape != (len(adm), len(WN)):
+        return        # (a malformed array is reported by haze_wellformed)
     if vec.get('inv') and not np.any(sigma):
         return
     for k, (lo, hi) in enumerate(adm):
@@ -963,7 +963,7 @@ def random_event(world, grid, esub, eid, run_model, mix=False, long_lived=False,
     # the route by which the contribution reaches the path integral (MC_CloudsRoutes!Routes); the routes through an entry
     # point of the model run the model
     q = rng.random()
-    route = 'prepare' if q < 0.5 else 'each' if q < 0.8 else ('contrib' if q < 0.9 else 'full') if run_model else 'each'
+    route = 'prepare' if q < 0.5 else 'each' if q < 0.86 else ('contrib' if q < 0.93 else 'full') if run_model else 'each'
     if r < 0.25:
         p, dc = random_deck(rng, world, cen2)
         if long_lived and 'deck' not in reuse:
